@@ -123,6 +123,10 @@ pub struct Model {
     pub txn: Option<TxnState>,
     pub name_seq: u32,
     pub big: bool,
+    /// names freed by DROP INDEX / DROP TABLE (table, index name): re-creating an object under a name that was
+    /// used before is ordinary usage and exercises stale per-name state (open-file cache, catalog entries)
+    pub dropped_indexes: Vec<(String, String)>,
+    pub dropped_tables: Vec<String>,
 }
 
 /// value of a column DEFAULT selector. `neg_ok == false` keeps defaults non-negative
@@ -279,7 +283,7 @@ impl Model {
                 }
             }
         }
-        Model { tables: ts, txn: None, name_seq: 0, big }
+        Model { tables: ts, txn: None, name_seq: 0, big, dropped_indexes: vec![], dropped_tables: vec![] }
     }
 
     fn parent_keys(&self) -> Vec<i64> {
@@ -973,8 +977,19 @@ impl Model {
                 if tab.rows.iter().any(|row| cs.iter().any(|c| matches!(&row[*c as usize], Val::Text(s) if s.len() > 1000))) {
                     return None;
                 }
-                self.name_seq += 1;
-                let ix = IndexSpec { name: format!("ix_{}_n{}", tab.name, self.name_seq), cols: cs, unique: *unique };
+                // every other CREATE INDEX takes a name that a DROP INDEX on this table freed, if there is one
+                let reuse = if cols.first().map(|c| c % 2 == 1).unwrap_or(false) { self.dropped_indexes.iter().rposition(|(t, _)| *t == tab.name) } else { None };
+                let name = match reuse {
+                    Some(i) => {
+                        r.tags.push("reuses_dropped_index_name");
+                        self.dropped_indexes[i].1.clone()
+                    }
+                    None => {
+                        self.name_seq += 1;
+                        format!("ix_{}_n{}", tab.name, self.name_seq)
+                    }
+                };
+                let ix = IndexSpec { name, cols: cs, unique: *unique };
                 r.sql = Self::index_sql(tab, &ix);
                 r.table = Some(tab.name.clone());
                 r.after[ti].indexes.push(ix);
@@ -1091,9 +1106,14 @@ impl Model {
                 if self.in_txn() || self.tables.len() >= 4 {
                     return None;
                 }
-                self.name_seq += 1;
                 let mut s = spec.clone();
-                s.name = format!("tn{}", self.name_seq);
+                if spec.cols.len() % 2 == 1 && !self.dropped_tables.is_empty() {
+                    s.name = self.dropped_tables.last().cloned().unwrap();
+                    r.tags.push("reuses_dropped_table_name");
+                } else {
+                    self.name_seq += 1;
+                    s.name = format!("tn{}", self.name_seq);
+                }
                 for (k, ix) in s.indexes.iter_mut().enumerate() {
                     ix.name = format!("ix_{}_{}", s.name, k);
                 }
@@ -1156,6 +1176,25 @@ impl Model {
             TxnEffect::None => {
                 // UPDATE / DELETE drop the TOAST chunks of the rows they touch at once; a rollback cannot bring
                 // them back (listed finding): tag the transaction when the table held a toasted value
+                for t in &self.tables {
+                    match r.after.iter().find(|a| a.name == t.name) {
+                        None => {
+                            if !self.dropped_tables.contains(&t.name) {
+                                self.dropped_tables.push(t.name.clone());
+                            }
+                        }
+                        Some(a) => {
+                            for ix in &t.indexes {
+                                if !a.indexes.iter().any(|x| x.name == ix.name) {
+                                    self.dropped_indexes.push((t.name.clone(), ix.name.clone()));
+                                }
+                            }
+                        }
+                    }
+                }
+                // a name that is live again is no longer free
+                self.dropped_tables.retain(|n| !r.after.iter().any(|a| &a.name == n));
+                self.dropped_indexes.retain(|(t, n)| !r.after.iter().any(|a| &a.name == t && a.indexes.iter().any(|x| &x.name == n)));
                 let had_long = matches!(r.kind, "UPDATE" | "DELETE")
                     && r.table.as_ref().and_then(|n| self.tables.iter().find(|t| &t.name == n)).map(|t| t.rows.iter().any(|row| row.iter().any(is_long))).unwrap_or(false);
                 self.tables = r.after.clone();
